@@ -129,7 +129,7 @@ def whole_runs(run, pid, tier, seed, n_quick=36):
                                        tag="mcosaca-" + pid.lower())
             run.add_mc(r2, "MC_Osaca")
         except tlc.TLCError as e:
-            if "is violated" in str(e):
+            if "violated" in str(e) or "MC_Osaca" in str(e):
                 run.divergence("pipeline-order-model", {"id": small["id"]})
             else:
                 raise
